@@ -90,8 +90,14 @@ func TestC04(t *testing.T) {
 		cfg := GenDistrCfg(t, c04Opts())
 		blocks := rapid.IntRange(1, 7).Draw(t, "blocks")
 		inflows := genInflows(t, cfg, blocks, 30)
+		// the bank's send-enabled switch (a governance parameter): off by default or for one denomination
+		distrSendSwitch = []string{"", "", "", "default", Denom, "uatom"}[rapid.IntRange(0, 5).Draw(t, "sendSwitch")]
+		defer func() { distrSendSwitch = "" }()
 		fractional, r := runDistrCase(t, cfg, inflows, blocks, func(r *DistrRun) { r.CheckModel(t) })
 		cl := cfg.Classes()
+		if distrSendSwitch != "" {
+			cl["bank_transfers_switched_off"] = true
+		}
 		if fractional {
 			cl["fractional_leftover"] = true
 		}
